@@ -10,7 +10,7 @@ from ..cfg import CFG, EXIT
 from ..core import Ctx
 from ..flow import AV
 from ..model import AnalysisError, ClassInfo, FuncInfo, dotted, kwarg, norm, walk_no_nested
-from .common import assigned_value, enclosing, prog, resolve_local
+from .common import assigned_value, bound_args, enclosing, prog, resolve_local
 from .kernels import (concrete_dissimilarities, extract_d, extract_d_mat, identify, spec_formula, swap12)
 
 CAPTURED = {"delta_empty", "_matrix", "alpha", "beta", "positional_dissim", "categorical_dissim"}
@@ -128,9 +128,9 @@ def rule_matrix_builders(ctx: Ctx):
             # delegating constructor (Levenshtein -> Lambda, Numerical -> Ordinal): positions must be aligned with labels
             if parent.name == "OrdinalCategoricalDissimilarity":
                 pin = parent.methods["__init__"].params[1:]
-                a = call.args
-                lab = norm(a[0]) if a else None
-                pos = resolve_local(init.node, a[1]) if len(a) > 1 else None
+                ba = bound_args(call, parent.methods["__init__"]) or {}
+                lab = norm(ba[pin[0]]) if pin[0] in ba else None
+                pos = resolve_local(init.node, ba[pin[1]]) if len(pin) > 1 and pin[1] in ba else None
                 okp = pos is not None and isinstance(pos, ast.Call) and norm(pos.func) in ("np.array", "numpy.array") and \
                     norm(pos.args[0]) in (f"list({lab})", lab, f"[float({'x'}) for x in {lab}]")
                 ctx.check(okp, "R-C04-5", init, call, "positions are derived element-wise from the labels (same order)",
@@ -174,6 +174,11 @@ def rule_matrix_builders(ctx: Ctx):
                         and it.args[0].id in perms and isinstance(n.target, ast.Tuple) and len(n.target.elts) == 2:
                     tags[norm(n.target.elts[0])] = "SORTED"
                     tags[norm(n.target.elts[1])] = "SUPPLIED"
+                elif isinstance(it, ast.Call) and dotted(it.func) == "enumerate" and it.args and isinstance(it.args[0], ast.Name) \
+                        and isinstance(n.target, ast.Tuple) and len(n.target.elts) == 2 and isinstance(n.target.elts[0], ast.Name) and \
+                        (it.args[0].id == cats_name or it.args[0].id in {labels} | {p for p in init.params[1:] if p not in ("delta_empty",)}) and len(it.args) == 1:
+                    # position in the sorted category set / in a caller-supplied sequence
+                    tags[n.target.elts[0].id] = "SORTED" if it.args[0].id == cats_name else "SUPPLIED"
                 elif isinstance(it, ast.Call) and dotted(it.func) == "range" and isinstance(n.target, ast.Name):
                     bound = it.args[-1] if len(it.args) <= 2 else it.args[1]
                     if isinstance(bound, ast.Name) and bound.id in tags:
